@@ -31,7 +31,7 @@ from ..runner import say, VERIF, OUT, EVID, load_known
 
 LEVEL = "fault_enumeration"
 SIZES = {  # children x sessions per child, alloc workloads
-    "quick": {"children": 16, "sessions": 16, "workloads": 16, "big": 32},
+    "quick": {"children": 16, "sessions": 16, "workloads": 16, "big": 65},
     "thorough": {"children": 64, "sessions": 120, "workloads": 512,
                  "big": 768},
 }
@@ -256,7 +256,7 @@ def run_check(tier, seed):
                      "optimize": False,   # see DESIGN 10: python -O is out of scope
                      "progress": str(sdir / f"sess-{j}.log")})
     nbig = sz["big"]
-    nbc = 8 if tier == "quick" else 16
+    nbc = 13 if tier == "quick" else 16
     for j in range(nbc):
         jobs.append({"mode": "big", "seed": seed,
                      "big": list(range(j, nbig, nbc)),
